@@ -205,6 +205,12 @@ func vh_nic_admission() {
 		}
 		vassert(nic.AddAddress(vhNetP, addrs[i]) == nil, "address added")
 	}
+	// the first address may be in the middle of being removed: its reference count already
+	// dropped to zero while the entry is still in the table
+	dying := na > 0 && vnBool("dying")
+	if dying {
+		nic.endpoints[NetworkEndpointID{addrs[0]}].refs = 0
+	}
 	nic.promiscuous = vnBool("promiscuous")
 	hasSubnet := vnBool("subnet")
 	var sn tcpip.Subnet
@@ -233,8 +239,8 @@ func vh_nic_admission() {
 	}
 	dst := tcpip.Address(pkt[4:8])
 	own := false
-	for _, a := range addrs {
-		if a == dst {
+	for i, a := range addrs {
+		if a == dst && !(dying && i == 0) {
 			own = true
 		}
 	}
@@ -256,6 +262,9 @@ func vh_nic_admission() {
 		for _, e := range np.eps {
 			if e.handled == 1 {
 				vassert(e.Id.LocalAddress == dst, "it is processed by the endpoint of exactly the destination address")
+				if dying && dst == addrs[0] {
+					vassert(e != np.eps[0], "an address whose removal is in progress is not served by its dying endpoint")
+				}
 			}
 		}
 		vreach("accepted")
